@@ -99,7 +99,9 @@ VARIANTS += [
     ("C05-swap-ge", "C05", IV, "        if absolute and _is_after(start, end):\n            end, start = start, end\n\n        _start = start", "        if absolute and _is_after(end, start):\n            end, start = start, end\n\n        _start = start", "FLOW.swap"),
     ("C05-native-order", "C05", IV, "        if absolute and _is_after(start, end):\n", "        if absolute and start > end:\n", "ORDER.instant"),
     ("C05-init-native-order", "C05", IV, "        if _is_after(start, end):\n            self._invert = True", "        if start > end:\n            self._invert = True", "ORDER.instant"),
-    ("C05-seconds-days", "C05", IV, "return super().__new__(cls, seconds=delta.total_seconds())", "return super().__new__(cls, seconds=delta.seconds)", "FLOW.duration"),
+    ("C05-seconds-days", "C05", IV, "            days=delta.days,\n            seconds=delta.seconds,", "            seconds=delta.seconds,", "LENGTH.tabulated"),
+    ("C05-float-seconds-ok", "C05", IV, "        return super().__new__(\n            cls,\n            days=delta.days,\n            seconds=delta.seconds,\n            microseconds=delta.microseconds,\n        )", "        return super().__new__(cls, seconds=delta.total_seconds())", None),
+    ("C06-float-seconds", "C06", IV, "        return super().__new__(\n            cls,\n            days=delta.days,\n            seconds=delta.seconds,\n            microseconds=delta.microseconds,\n        )", "        return super().__new__(cls, seconds=delta.total_seconds())", "LENGTH.exact"),
     ("C05-abs-false", "C05", IV, "return self.__class__(self.start, self.end, absolute=True)", "return self.__class__(self.start, self.end, absolute=False)", "ABS"),
     ("C05-naive-min-sec-swap", "C05", DT, "                    other.minute,\n                    other.second,\n                    other.microsecond,\n                )\n            else:\n                other = self.instance(other)\n\n        return other.diff(self, False)", "                    other.second,\n                    other.minute,\n                    other.microsecond,\n                )\n            else:\n                other = self.instance(other)\n\n        return other.diff(self, False)", "RECON.slot"),
 ]
@@ -438,7 +440,7 @@ BENIGN = [
     ("error-message-change", "src/pendulum/tz/exceptions.py", None, None, ["C01", "C02"], [('message = "The datetime {} does not exist."', 'message = "The datetime {} is not a valid local time."')]),
     ("add-unrelated-method", DT, None, None, ["C01", "C02", "C03", "C04", "C05", "C11", "C12", "C14", "C16"], [("    def is_utc(self) -> bool:", "    def is_epoch(self) -> bool:\n        return self.int_timestamp == 0\n\n    def is_utc(self) -> bool:")]),
     ("docstring-change", HELP, None, None, ["C03", "C04"], [('    Adds a duration to a date/datetime instance.', '    Adds a duration to a date or datetime instance (calendar aware).')]),
-    ("interval-rename-delta", IV, None, None, ["C05", "C06", "C14", "C19"], [("        delta: timedelta = _end - _start\n\n        return super().__new__(cls, seconds=delta.total_seconds())", "        span: timedelta = _end - _start\n\n        return super().__new__(cls, seconds=span.total_seconds())")]),
+    ("interval-rename-delta", IV, None, None, ["C05", "C06", "C14", "C19"], [("        delta: timedelta = _end - _start\n", "        span: timedelta = _end - _start\n"), ("            days=delta.days,\n            seconds=delta.seconds,\n            microseconds=delta.microseconds,", "            days=span.days,\n            seconds=span.seconds,\n            microseconds=span.microseconds,")]),
     ("precise-diff-rename", PYH, None, None, ["C06", "C15"], [("hour_diff", "h_diff")]),
     ("time-diff-rename", TIME, None, None, ["C20"], [("us1", "a_us"), ("us2", "b_us")]),
     ("parser-rename-dt", PARSER, None, None, ["C13", "C17", "C07"], [("            duration = parsed.duration\n", "            duration = parsed.duration  # the parsed ISO 8601 duration\n")]),
